@@ -35,6 +35,7 @@ def run(res, tier, rng, table_diffs=()):
             srcs.append(("directed", d))
     from .. import gen2
     srcs += gen2.big_code_programs()
+    srcs += gen2.width_boundary_programs()
     srcs += [("iife", p) for p in gen2.iife_programs()]
     for _ in range(500 if tier == "quick" else 10000):
         srcs.append(("nested-fn", gen2.nested_fn_program(rng.fork())))
